@@ -142,11 +142,16 @@ def fragment(v, case, reeval):
         base = reeval(list(case.prog), case.version, None)
         if base is None or target not in base:
             return None
-        nxt, changed = r_swap_int_field_operands(list(case.prog))
-        if changed:
+        cur = list(case.prog)
+        for name, R in (("int-field-constant-first-operand", r_swap_int_field_operands),
+                        ("end-of-program-fallthrough-not-an-exit", r_append_return)):
+            nxt, changed = R(cur)
+            if not changed:
+                continue
             got = reeval(nxt, case.version, None)
             if got is not None and target not in got:
-                return "int-field-constant-first-operand"
+                return name
+            cur = nxt
         return None
     chain = [("int-field-constant-first-operand", r_swap_int_field_operands),
              ("end-of-program-fallthrough-not-an-exit", r_append_return)]
